@@ -1,6 +1,6 @@
 --------------------------- MODULE MC_Forwarding ---------------------------
 (* Exhaustive model of Forwarding: one frame of every (emitter, dst, ttl)  *)
-(* on nine small internetworks (8-bit addresses; LANs are /4, the          *)
+(* on ten small internetworks (8-bit addresses; LANs are /4, the          *)
 (* router-router link a /6 with two usable addresses):                     *)
 (*   T1  a - r - [sw] - b                                                  *)
 (*   T2  a - r1 = r2 - b   static routes both ways, a longer-prefix route   *)
@@ -20,6 +20,8 @@
 (*   T8  a, b and both router interfaces on ONE switch (two subnets)       *)
 (*   T9  a, r1, r2 - [sw]; r1 - d; r2 - b: a's gateway r1 routes to b's    *)
 (*       LAN via r2 on the LAN the packet came from (hairpin)              *)
+(*   T10 h - r1, t + r1 + r2 - [sw], r2 - c, r1 = r2: t's gateway is r2,   *)
+(*       which reaches h over the dedicated link (r1 sees t "behind" r2)   *)
 (* The design lowers the ttl by one at every receiving interface / switch  *)
 (* port and at every routing decision.  harness/c08.py reads the           *)
 (* topologies and the frames from this model's behaviours, builds the real *)
@@ -72,7 +74,14 @@ T9 == << H("a", 18, 4, 17), H("b", 34, 4, 33), H("d", 50, 4, 49),
          R("r1", <<If(17, 4), If(49, 4)>>, <<Rt(32, 4, 20, 0)>>, NoHop),
          R("r2", <<If(20, 4), If(33, 4)>>, <<Rt(48, 4, 17, 0)>>, NoHop),
          S("sw", 16, 4) >>
-Topos == {T1, T2, T3, T4, T5, T6, T7, T8, T9}
+\* T10: t shares a LAN with BOTH routers and uses r2 as its gateway; r2 reaches h's LAN over a dedicated r1 = r2 link, so r1
+\* sees t's packets arrive from r2 although t is its direct neighbour on the LAN (what a router learns from a frame that merely
+\* passes through it must not replace what the topology says)
+T10 == << H("h", 18, 4, 17), H("t", 34, 4, 36), H("c", 50, 4, 49),
+          R("r1", <<If(17, 4), If(33, 4), If(65, 6)>>, <<Rt(48, 4, 66, 0)>>, NoHop),
+          R("r2", <<If(66, 6), If(36, 4), If(49, 4)>>, <<Rt(16, 4, 65, 0)>>, NoHop),
+          S("sw", 32, 4) >>
+Topos == {T1, T2, T3, T4, T5, T6, T7, T8, T9, T10}
 
 \* every owned address, an unowned address on each LAN and on the router-router subnet of T6 (78),
 \* two addresses that exist nowhere (133: inside the static 128/2 routes of T3/T5; 200: only default
